@@ -730,8 +730,11 @@ def _draw_var(draw, b, ops, how, triple=None):
     else:
         g = triple[1] if triple else draw(st.sampled_from(sorted(b.geoms)))
         mi = b.geoms[g]
-    ms = b.meshes[mi]
     s = triple[0] if triple else draw(st.sampled_from(_STATES))
+    if how == "dup" and b.vars:
+        s, g, _ = draw(st.sampled_from(sorted(b.vars)))
+        mi = b.geoms[g]
+    ms = b.meshes[mi]
     ncols = list(ms["nf"]) + list(ms["cols"])
     ecols = list(ms["ef"]) + ncols
     if how == "dup" and any(t[:2] == (s, g) for t in b.vars):
